@@ -83,9 +83,28 @@ func ruleErrorsConsumed(c *eng.Ctx, rule string, callees []string, exempt map[st
 			case *ssa.Return, *ssa.Send, *ssa.MapUpdate, *ssa.MakeClosure:
 				consume.AddInstrs(u)
 			case *ssa.Store:
-				if _, local := x.Addr.(*ssa.Alloc); !local {
-					consume.AddInstrs(u)
+				if _, local := x.Addr.(*ssa.Alloc); local {
+					continue
 				}
+				// a variadic argument: the error sits in the slot of a local array that is
+				// sliced and passed to one call — that call is the use (a debug log is none)
+				if ia, isIA := x.Addr.(*ssa.IndexAddr); isIA {
+					if arr, isArr := ia.X.(*ssa.Alloc); isArr && arr.Comment == "varargs" {
+						for _, ar := range *arr.Referrers() {
+							sl, isSl := ar.(*ssa.Slice)
+							if !isSl {
+								continue
+							}
+							for _, sr := range *sl.Referrers() {
+								if call, isCall := sr.(ssa.CallInstruction); isCall && !strings.HasPrefix(c.P.CalleeName(call), "internal/debug.") {
+									consume.AddInstrs(sr)
+								}
+							}
+						}
+						continue
+					}
+				}
+				consume.AddInstrs(u)
 			case ssa.CallInstruction:
 				name := c.P.CalleeName(x)
 				if strings.HasPrefix(name, "internal/debug.") {
